@@ -741,6 +741,15 @@ func (db *DB) rollbackJournalSegment(ctx context.Context, r *JournalReader, dbFi
 			return fmt.Errorf("read frame(%d): %w", i, err)
 		}
 
+		// The record checksum does not cover the page number. Like SQLite, stop
+		// at a page number of zero and skip pages beyond the original size of
+		// the database: they are cut off by the final truncate anyway.
+		if pgno == 0 {
+			return nil
+		} else if pgno > r.commit {
+			continue
+		}
+
 		// Write data to the database file.
 		if err := db.writeDatabasePage(dbFile, pgno, data, true); err != nil {
 			return fmt.Errorf("write to database (pgno=%d): %w", pgno, err)
